@@ -50,8 +50,8 @@ MUTANTS = {
     "C07-mebibit-digits": (["C07"], [("src/datavolume.rs", '#[unit(Mebibit, "Mib", 131072, "1048576·b")]', '#[unit(Mebibit, "Mib", 131027, "1048576·b")]')], "Mebibit = 131027 B"),
     "C07-are-prefix": (["C07"], [("src/area.rs", '#[unit(Are, "a", HECTO, 100, "100·m²")]', '#[unit(Are, "a", DECA, 100, "100·m²")]')], "Are reports prefix DECA"),
     "C07-long-literals-clamped-to-18-digits": (["C07"], [(H, """            let unit_scale: &syn::Lit = unit.scale.as_ref().unwrap();
-            code = quote!(""", """            let unit_scale: &syn::Lit = &clamp_scale_lit(unit.scale.as_ref().unwrap());
-            code = quote!("""), (H, """fn codegen_fn_scale(units: &Vec<UnitDef>) -> TokenStream {""", """/// `Dec!` accepts at most 18 fractional digits: shorten longer float literals.
+            // `Amnt!` casts""", """            let unit_scale: &syn::Lit = &clamp_scale_lit(unit.scale.as_ref().unwrap());
+            // `Amnt!` casts"""), (H, """fn codegen_fn_scale(units: &Vec<UnitDef>) -> TokenStream {""", """/// `Dec!` accepts at most 18 fractional digits: shorten longer float literals.
 fn clamp_scale_lit(lit: &syn::Lit) -> syn::Lit {
     if let syn::Lit::Float(f) = lit {
         let digits = f.base10_digits().to_lowercase();
